@@ -22,7 +22,8 @@ import (
 // files laid over /repo's) and builds a fresh SSA program. No `go list`, no compilation, nothing executed.
 
 type depCache struct {
-	deps map[string]*types.Package
+	deps  map[string]*types.Package
+	extra map[string]bool // imports added by variants, already part of deps
 	dirs map[string]string // library package -> directory
 	base *World
 }
@@ -53,8 +54,9 @@ func loadDeps(repo string) (*depCache, error) {
 }
 
 type variantImporter struct {
-	dc   *depCache
-	mods map[string]*types.Package
+	dc    *depCache
+	mods  map[string]*types.Package
+	retry bool // the dependency universe was reloaded while this variant was being checked
 }
 
 func (vi *variantImporter) Import(path string) (*types.Package, error) {
@@ -67,13 +69,39 @@ func (vi *variantImporter) Import(path string) (*types.Package, error) {
 	if path == "unsafe" {
 		return types.Unsafe, nil
 	}
-	// an import the pinned tree does not have (a variant added one): load its export data on demand
-	if !strings.HasPrefix(path, modPath) {
-		cfg := &packages.Config{Mode: packages.NeedName | packages.NeedTypes | packages.NeedImports, Dir: vi.dc.base.Dir,
+	// an import the pinned tree does not have (a variant added one). Its types must come from the same universe as the
+	// types the other dependencies mention (drpcmanager.Options has a field of type drpcstream.Options: loading
+	// drpcstream on its own gives a second, incompatible drpcstream.Options). So all dependencies are loaded again in
+	// one go, together with the new path, and the variant is type-checked again from the start.
+	if !strings.HasPrefix(path, modPath) && !vi.dc.extra[path] {
+		var paths []string
+		for p := range vi.dc.deps {
+			paths = append(paths, p)
+		}
+		sort.Strings(paths)
+		paths = append(paths, path)
+		cfg := &packages.Config{Mode: packages.NeedName | packages.NeedTypes | packages.NeedImports | packages.NeedDeps, Dir: vi.dc.base.Dir,
 			Env: append(os.Environ(), "GOFLAGS=-mod=mod", "GOPROXY=off", "GOSUMDB=off", "GOTOOLCHAIN=local", "GOWORK=off")}
-		if ps, err := packages.Load(cfg, path); err == nil && len(ps) == 1 && ps[0].Types != nil && len(ps[0].Errors) == 0 {
-			vi.dc.deps[path] = ps[0].Types
-			return ps[0].Types, nil
+		if ps, err := packages.Load(cfg, paths...); err == nil {
+			fresh := map[string]*types.Package{}
+			okAll := true
+			packages.Visit(ps, nil, func(p *packages.Package) {
+				if p.Types != nil && !strings.HasPrefix(p.PkgPath, modPath) {
+					fresh[p.PkgPath] = p.Types
+				}
+				if len(p.Errors) > 0 && p.PkgPath == path {
+					okAll = false
+				}
+			})
+			if okAll && fresh[path] != nil {
+				vi.dc.deps = fresh
+				if vi.dc.extra == nil {
+					vi.dc.extra = map[string]bool{}
+				}
+				vi.dc.extra[path] = true
+				vi.retry = true
+				return nil, fmt.Errorf("dependency universe reloaded for %q: retry", path)
+			}
 		}
 	}
 	return nil, fmt.Errorf("import %q not available in the dependency cache", path)
@@ -81,6 +109,14 @@ func (vi *variantImporter) Import(path string) (*types.Package, error) {
 
 // worldFromOverlay builds a World for repo with the files under overlayDir (same relative paths) replacing /repo's.
 func (dc *depCache) worldFromOverlay(repo, overlayDir string) (*World, error) {
+	w, retry, err := dc.worldFromOverlayOnce(repo, overlayDir)
+	if err != nil && retry {
+		w, _, err = dc.worldFromOverlayOnce(repo, overlayDir)
+	}
+	return w, err
+}
+
+func (dc *depCache) worldFromOverlayOnce(repo, overlayDir string) (*World, bool, error) {
 	fset := token.NewFileSet()
 	order := []string{"ringbuffer", "safemap", "actor", "remote", "cluster"}
 	vi := &variantImporter{dc: dc, mods: map[string]*types.Package{}}
@@ -105,7 +141,7 @@ func (dc *depCache) worldFromOverlay(repo, overlayDir string) (*World, error) {
 		dir := dc.dirs[l]
 		ents, err := os.ReadDir(dir)
 		if err != nil {
-			return nil, err
+			return nil, vi.retry, err
 		}
 		var files []*ast.File
 		for _, e := range ents {
@@ -122,11 +158,11 @@ func (dc *depCache) worldFromOverlay(repo, overlayDir string) (*World, error) {
 			}
 			b, err := os.ReadFile(src)
 			if err != nil {
-				return nil, err
+				return nil, vi.retry, err
 			}
 			f, err := parser.ParseFile(fset, path, b, parser.SkipObjectResolution)
 			if err != nil {
-				return nil, fmt.Errorf("parse: %w", err)
+				return nil, vi.retry, fmt.Errorf("parse: %w", err)
 			}
 			files = append(files, f)
 		}
@@ -144,7 +180,7 @@ func (dc *depCache) worldFromOverlay(repo, overlayDir string) (*World, error) {
 		}}
 		tp, _ := conf.Check(modPath+"/"+l, fset, files, info)
 		if terr != nil {
-			return nil, fmt.Errorf("type-check errors in module: %v", terr)
+			return nil, vi.retry, fmt.Errorf("type-check errors in module: %v", terr)
 		}
 		vi.mods[modPath+"/"+l] = tp
 		for _, ip := range tp.Imports() {
@@ -175,7 +211,7 @@ func (dc *depCache) worldFromOverlay(repo, overlayDir string) (*World, error) {
 		}
 	}
 	sort.Slice(w.Funcs, func(i, j int) bool { return w.Funcs[i].String() < w.Funcs[j].String() })
-	return w, nil
+	return w, false, nil
 }
 
 func fileExists(p string) bool {
